@@ -58,6 +58,29 @@ def run(prog, R):
             continue
         R.ob("C17.2-text-constants", repr(s_), s_ in allowed, "", f"text is compared with the constant {s_!r} in {sorted(where_)[:3]}" + ("" if s_ in allowed else ": not in the allow-list — analysis may now depend on how a user spells an identifier"))
     R.floor("string constants compared with text", n, 10)
+    # identifier text is opaque to the analyser: names are compared for equality, hashed, copied and printed, never
+    # inspected or transformed (case folding, prefix tests, length, ordering) — otherwise the result depends on how
+    # the user spells an identifier, not only on which identifiers are equal
+    INSPECT = ("to_lowercase", "to_uppercase", "to_ascii_lowercase", "to_ascii_uppercase", "eq_ignore_ascii_case", "make_ascii_lowercase", "make_ascii_uppercase", "starts_with", "ends_with",
+               "contains", "find", "rfind", "split", "splitn", "rsplit", "split_at", "split_once", "trim", "trim_start", "trim_end", "trim_matches", "trim_start_matches", "trim_end_matches", "strip_prefix",
+               "strip_suffix", "replace", "replacen", "len", "is_empty", "bytes", "char_indices", "chars", "get", "cmp", "partial_cmp", "lt", "le", "gt", "ge", "parse", "matches", "is_char_boundary", "repeat")
+    ALLOW_INSPECT = {("oq3_semantics::asg::BitStringLiteral::to_texpr", "chars"): "counts the bits of a bit-string *literal*", ("oq3_semantics::symbols::ScopeSymbolTable::len", "len"): "HashMap::len (not a string)"}
+    nstr, badi = 0, []
+    for b_ in prog.by_crate["oq3_semantics"]:
+        if b_.npath.startswith(("oq3_semantics::semantic_error::", "oq3_semantics::display", "oq3_semantics::validate")) or "print" in b_.npath or "fmt" in b_.npath.split("::")[-1]:
+            continue
+        for bi, t in b_.calls():
+            c = b_.callee_of(t) or ""
+            tys = [x if isinstance(x, str) else json.dumps(x) for x in (t.get("argtys") or [])]
+            if not tys or not any(s_ in tys[0] for s_ in ("&str", "&mut str", "String", "&&str")) or "HashMap" in tys[0] or "Vec<" in tys[0]:
+                continue
+            nstr += 1
+            m = c.split("::")[-1]
+            if m in INSPECT and (b_.npath, m) not in ALLOW_INSPECT:
+                badi.append((inventory.ishort(b_.npath), m, t["at"]))
+    R.ob("C17.2-names-are-opaque", "the analyser never inspects or transforms identifier text", not badi, badi[0][2] if badi else "",
+         f"{nstr} calls with a string receiver in oq3_semantics, none inspects/transforms text" if not badi else f"text of a name is inspected or transformed: {[(a, m) for a, m, _ in badi][:4]}: the analysis now depends on the spelling of identifiers")
+    R.floor("string-receiver call sites in oq3_semantics (positive control)", nstr, 30)
     # ---- C17.3 determinism
     roots = [k for k in prog.bodies if k.startswith("oq3_semantics::syntax_to_semantics::analyze_source") or k.startswith("oq3_semantics::syntax_to_semantics::parse_source")] + [k for k in prog.bodies if k.startswith("oq3_source_file::api::parse_source")]
     cone = prog.cone(roots)
@@ -97,6 +120,7 @@ def run(prog, R):
     R.ob("C17.3-determinism", "file-system / environment reads only in the include resolver", ok_fs and bool(fsuse), "", f"{ {k: sorted(v) for k, v in fsuse.items()} }")
     R.premises(prog, "C17.1-lexer-layout-premise", ["C10:C10.1-", "C15:C15.5-", "C15:C15.3-"],
                "whether a blank may be inserted between two lexemes without changing the tokens rests on the lexer's tables: number + unit splitting (unit tables agree), trivia / jointness handling, numeric suffix protocol")
+    R.premises(prog, "C17.4-symbol-store-premise", ["C19:C19.1-", "C19:C19.5-"], "symbols once emitted are never changed: the symbol store is append-only (C19.1) and ids index it (C19.5)")
     # ---- C17.4 append only, one pass
     for adt, fld in (("oq3_semantics::asg::Program", "stmts"), ("oq3_semantics::semantic_error::SemanticErrorList", "list"), ("oq3_semantics::semantic_error::SemanticErrorList", "include_errors")):
         if adt not in prog.adts:
